@@ -64,7 +64,7 @@ type nodeSt struct {
 	Claim   string `json:"claim"`
 	HasTGP  bool   `json:"hasTGP"`
 	TGP     string `json:"tgp,omitempty"`
-	Flow    string `json:"flow"`   // claim-deleted | node-deleted
+	Flow    string `json:"flow"` // claim-deleted | node-deleted
 	passes  int    // drain passes issued on a deleting node
 	deleted bool
 }
@@ -1235,7 +1235,21 @@ func run(r *mon.Report, tier string, idx int, rng *rand.Rand) {
 	}
 	r.DistinctAdd("schedules", fmt.Sprintf("%016x", h.Sum64()))
 	if len(c.sig) > 0 {
-		r.Sig("%s|tgp=%v|pdb=%s|nodes=%d", strings.Join(common.SortedKeys(c.sig), "+"), tgp > 0, mode, len(c.nodes))
+		// coarse classes of what the monitors had in front of them (fine flags are merged so that the count of
+		// distinct signatures stays meaningful)
+		merge := map[string]string{"pdb429": "pdb-refusal", "pdb500": "pdb-refusal", "dnd": "protected-present", "static": "protected-present", "tolerating": "protected-present",
+			"tier1": "later-tier-enqueued", "tier2": "later-tier-enqueued", "tier3": "later-tier-enqueued", "deadline-later": "deadline-moved", "deadline-earlier": "deadline-moved",
+			"delete-terminating": "delete", "concurrent": ""}
+		coarse := map[string]bool{}
+		for k := range c.sig {
+			if m, ok := merge[k]; ok {
+				k = m
+			}
+			if k != "" {
+				coarse[k] = true
+			}
+		}
+		r.Sig("%s|tgp=%v|nodes=%d", strings.Join(common.SortedKeys(coarse), "+"), tgp > 0, len(c.nodes))
 	}
 	if r.WantSample() && c.sig["delete"] && c.sig["evict"] {
 		d := c.caseDesc()
@@ -1247,20 +1261,31 @@ func run(r *mon.Report, tier string, idx int, rng *rand.Rand) {
 func init() {
 	reg.Register(&reg.Prop{
 		ID: "C10", Level: "exploration", Race: true, RaceIsViolation: true,
-		Rule: "each case = 1-2 nodes grown through the real provisioner + nodeclaim lifecycle (NodeClaim with/without terminationGracePeriod 20s..15m), 3-12 bound pods per node drawn from {priority class x owner ReplicaSet/DaemonSet/StatefulSet/Node/none x grace nil/0/1/30/600 x do-not-disrupt true/duration/invalid x tolerations of the disrupted taint x running/terminating/terminating with long grace/stuck/Succeeded/Failed}, a PDB layout {none, blocking, allowing one, two matching, minAvailable 100%, blocking all}; NodeClaim or Node deleted; then 30-80 PRNG-ordered steps of {node termination Reconcile or direct Terminator.Drain, eviction Queue.Reconcile of a queued key (fresh or stale object of a replaced pod), clock jump onto deadline-minus-grace / deadline / deletionTimestamp+1m / do-not-disrupt expiry boundaries (-1s,0,+0.5s,+1s), kubelet reap, deadline annotation moved later/earlier, pod replaced under the same name, do-not-disrupt/PDB/phase mutation, lifecycle reconcile, user delete} with 1-2 phases in which drain passes and 2-5 queue workers run concurrently. Non-trivial = Karpenter issued at least one judged removal call or a monitor antecedent fired; distinct by (monitor antecedents seen x TGP x PDB layout x node count).",
+		Rule:  "each case = 1-2 nodes grown through the real provisioner + nodeclaim lifecycle (NodeClaim with/without terminationGracePeriod 20s..15m), 3-12 bound pods per node drawn from {priority class x owner ReplicaSet/DaemonSet/StatefulSet/Node/none x grace nil/0/1/30/600 x do-not-disrupt true/duration/invalid x tolerations of the disrupted taint x running/terminating/terminating with long grace/stuck/Succeeded/Failed}, a PDB layout {none, blocking, allowing one, two matching, minAvailable 100%, blocking all}; NodeClaim or Node deleted; then 30-80 PRNG-ordered steps of {node termination Reconcile or direct Terminator.Drain, eviction Queue.Reconcile of a queued key (fresh or stale object of a replaced pod), clock jump onto deadline-minus-grace / deadline / deletionTimestamp+1m / do-not-disrupt expiry boundaries (-1s,0,+0.5s,+1s), kubelet reap, deadline annotation moved later/earlier, pod replaced under the same name, do-not-disrupt/PDB/phase mutation, lifecycle reconcile, user delete} with 1-2 phases in which drain passes and 2-5 queue workers run concurrently. Non-trivial = Karpenter issued at least one judged removal call or a monitor antecedent fired; distinct by (monitor antecedents seen x TGP x PDB layout x node count).",
 		Cases: cases, Run: run,
 		RaceFrac: map[string]float64{"quick": 0.34, "thorough": 0.1},
 		MinObserved: map[string]int{
-			"m2_eviction_calls_judged":                        100,
-			"m1_direct_deletes_judged":                        50,
-			"m2_reconciles_of_protected_pod_without_eviction": 20,
-			"m2_drain_passes_over_static_pod":                 20,
-			"m2_drain_passes_over_tolerating_pod":             20,
-			"m3_drain_passes_with_several_tiers_evictable":    50,
-			"m3_later_tier_enqueues_judged":                   20,
-			"m4_deletes_judged":                               50,
-			"evictions_refused_by_pdb_429":                    10,
-			"concurrent_queue_reconciles":                     50,
+			"m2_eviction_calls_judged":                           100,
+			"m1_direct_deletes_judged":                           50,
+			"m2_reconciles_of_protected_pod_without_eviction":    20,
+			"m2_drain_passes_over_static_pod":                    20,
+			"m2_drain_passes_over_tolerating_pod":                20,
+			"m3_drain_passes_with_several_tiers_evictable":       50,
+			"m3_later_tier_enqueues_judged":                      20,
+			"m4_deletes_judged":                                  50,
+			"m4_deletes_after_deadline_moved_later":              20,
+			"m4_evictions_judged_against_enqueued_deadline":      50,
+			"m4_evictions_after_deadline_moved_later_or_removed": 20,
+			"m1_deletes_within_1s_after_threshold":               10,
+			"m1_reconcile_1s_before_threshold(deleted=false)":    10,
+			"m1_reconcile_exactly_at_threshold(deleted=false)":   10,
+			"m1_deletes_of_already_terminating_pods":             20,
+			"m1_deadline_deletes_of_active-do-not-disrupt":       20,
+			"m3_deadline_eligible_pods_enqueued_across_tiers":    10,
+			"pods_replaced_while_enqueued":                       20,
+			"evictions_refused_multiple_pdbs_500":                10,
+			"evictions_refused_by_pdb_429":                       10,
+			"concurrent_queue_reconciles":                        50,
 		},
 	})
 }
